@@ -260,3 +260,51 @@ def newline_forms():
     out.append(rulesets.ruleset([R(c(97), P.cat(c(nl), c(98))), R(c(98)), R(P.cat(c(99), c(nl)), c(100)), R(c(100), dollar=True),
                                  R(P.plus(c(101)), P.star(c(nl)) if False else P.plus(c(nl)))], name="nlform-trailing"))
     return out
+
+
+def buffer_jobs(kind):
+    """job_filter producing multi-source / multi-buffer scenarios"""
+    from . import traces
+    def jf(c, job):
+        rng = random.Random(hash((c.id, bytes(job["input"]), kind)) & 0xffffffff)
+        nf = rng.randint(2, 4)
+        al = c.alphabet
+        job["files"] = [bytes(rng.choice(al) for _ in range(rng.randint(0, 6))) for _ in range(nf - 1)]
+        bs = traces.BufScript(rng, c, nf)
+        if kind == "eof":
+            job["ops"] = [(rng.choice("BP-"), rng.randrange(len(c.src["scs"]))) if rng.random() < 0.3 else ("-", 0) for _ in range(6)]
+            job["ops"] = [o if o[0] != "-" else ("-", 0) for o in job["ops"]]
+            job["wraps"] = bs.wrap_script(rng.randint(1, 5))
+            job["outs"] = bs.after_end(rng.randint(0, 3))
+        else:
+            job["ops"] = bs.action_script(rng.randint(2, 10))
+            job["outs"] = bs.outer_script(rng.randint(0, 6))
+            job["wraps"] = bs.wrap_script(rng.randint(0, 3)) if c.cfg.get("userwrap") else []
+        job["bufsize"] = rng.choice([0, 0, 2, 4, 16])
+        return job
+    return jf
+
+
+@check("C10")
+def c10(run):
+    fd = build.build_flex()
+    rng = random.Random(run.seed)
+    q = run.tier == "quick"
+    srcs = fam(run, profiles=("sc3", "sc", "lit", "trail", "anch", "mix"), core=3 if q else 10, rnd=40)
+    cfgs = [{"userwrap": True}, {"userwrap": True, "flavour": "r"}, {"userwrap": False}, {"userwrap": True, "tbl": "-Cf"},
+            {"userwrap": True, "reject": True, "interactive": False}]
+    cases = units.product_unit(run, fd, srcs, cfgs, tag="product", san=True)
+    ok = [c for c in cases if c.status == "ok"]
+    units.trace_unit(run, ok, rng, per_case=16 if q else 60, tag="eof", job_filter=buffer_jobs("eof"), scripts=False)
+
+
+@check("C11")
+def c11(run):
+    fd = build.build_flex()
+    rng = random.Random(run.seed)
+    q = run.tier == "quick"
+    srcs = fam(run, profiles=("lit", "sc", "ccl", "anch", "nul", "mix"), core=3 if q else 10, rnd=40)
+    cfgs = [{"userwrap": False}, {"userwrap": True}, {"userwrap": False, "flavour": "r"}, {"userwrap": True, "flavour": "r", "tbl": "-Cf"}]
+    cases = units.product_unit(run, fd, srcs, cfgs, tag="product", san=True)
+    ok = [c for c in cases if c.status == "ok"]
+    units.trace_unit(run, ok, rng, per_case=20 if q else 80, tag="buffers", job_filter=buffer_jobs("buf"), scripts=False)
